@@ -1,13 +1,409 @@
-//! C12 — not implemented yet.
+//! C12 — JSON encoder: one record, one line, fields round-trip.
+//! Real code: `JsonEncoder::new().encode(&mut SimpleWriter(Vec<u8>), &record)` on a freshly spawned
+//! (named or unnamed) thread whose MDC is filled with `log_mdc::insert`.
+//!
+//! case : level(1..5)  message  target  module_path?  file?  line?  thread-name?  mdc(`k;v,k;v…` insertion sequence)
+//! obs  : `time=<str> tid=<nat> order=<keys in log_mdc::iter order> indep=ok|FAIL-… line=<str>`
+//!        `time` is cut out of the emitted line, `tid` is `thread_id::get()` of the encoding thread,
+//!        `order` is what `log_mdc::iter` yields on that thread — environment facts handed to the model.
+//!        `indep` is the verdict of an independent parse with `serde_json::from_slice::<Value>`.
+use crate::proto::*;
 use crate::rng::Rng;
+use log::Level;
+use log4rs::encode::{json::JsonEncoder, writer::simple::SimpleWriter, Encode};
 
-pub fn gen(_rng: &mut Rng, _n: usize, _thorough: bool, _emit: &mut dyn FnMut(String)) {}
+const LEVELS: [Level; 5] = [Level::Error, Level::Warn, Level::Info, Level::Debug, Level::Trace];
 
-pub fn exec(_fields: &[&str]) -> String {
-    "unimplemented".to_owned()
+/// characters the property names, plus neighbours that an escaping bug would confuse
+fn special_chars() -> Vec<char> {
+    let mut v: Vec<char> = (0u32..0x20).map(|c| char::from_u32(c).unwrap()).collect();
+    v.extend([
+        '"', '\\', '/', '\u{7f}', '\u{80}', '\u{85}', '\u{9f}', '\u{a0}', '\u{2028}', '\u{2029}', '\u{feff}', '\u{fffd}',
+        '\u{ffff}', '\u{d7ff}', '\u{e000}', '\u{10000}', '\u{1f600}', '\u{10ffff}', '\u{301}', 'é', 'ß', '漢', '{', '}', '[',
+        ']', ':', ',', '\'', ' ', 'u', 'n', '0',
+    ]);
+    v
 }
 
-/// child-process entry point (`verif-harness child c12 …`), for checks that need process-global state
+const PLAIN: &[&str] = &["", "a", "app::db", "src/main.rs", "hello world", "x=1", "main", "request_id", "INFO", "null", "0"];
+
+/// texts that look like JSON or like escapes, to catch double (un)escaping and injection
+const TRICKY: &[&str] = &[
+    "\\n", "\\u0041", "\\\"", "\\\\", "\"", "\\", "\"}\n{\"time\":\"x\",\"level\":\"ERROR\",\"message\":\"forged\"}", "\",\"thread_id\":1,\"x\":\"",
+    "line1\nline2", "line1\r\nline2", "\n", "\r", "tab\there", "\u{8}\u{c}", "\u{0}", "a\u{0}b", "\u{1b}[31mred\u{1b}[0m", "\u{2028}", "\u{2029}",
+    "\u{2028}\u{2029}\n", "\u{7f}", "\u{1f600}", "\u{10ffff}\u{10000}", "\\ud83d\\ude00", "\u{d7ff}\u{e000}", "{\"a\":1}", "[]", "null",
+    "\u{feff}bom", "e\u{301}", "</script>", "\\u000a", "\\", "\\\\\"", "\"\"", "thread_id", "mdc", "time",
+];
+
+fn rand_scalar(rng: &mut Rng) -> char {
+    loop {
+        let c = match rng.below(6) {
+            0 => rng.below(0x80),
+            1 => rng.below(0x800),
+            2 => rng.below(0x10000),
+            3 => 0x10000 + rng.below(0x100000),
+            4 => 0xd700 + rng.below(0x200),  // around the surrogate gap (surrogates themselves are skipped)
+            _ => 0x2000 + rng.below(0x40),
+        } as u32;
+        if let Some(ch) = char::from_u32(c) {
+            return ch;
+        }
+    }
+}
+
+fn rand_string(rng: &mut Rng, thorough: bool, no_nul: bool) -> String {
+    let specials = special_chars();
+    let s: String = match rng.below(10) {
+        0 => (*rng.pick(PLAIN)).to_owned(),
+        1 | 2 => (*rng.pick(TRICKY)).to_owned(),
+        3 => format!("{}{}{}", rng.pick(PLAIN), rng.pick(TRICKY), rng.pick(PLAIN)),
+        _ => {
+            let max = if thorough { 40 } else { 12 };
+            let len = rng.range(0, max);
+            (0..len)
+                .map(|_| match rng.below(10) {
+                    0..=4 => *rng.pick(&specials),
+                    5..=6 => (b'a' + rng.below(26) as u8) as char,
+                    7 => char::from_u32(rng.below(0x20) as u32).unwrap(),
+                    _ => rand_scalar(rng),
+                })
+                .collect()
+        }
+    };
+    if no_nul {
+        s.replace('\u{0}', "\u{1}")
+    } else {
+        s
+    }
+}
+
+fn case_line(
+    level: usize,
+    msg: &str,
+    target: &str,
+    mp: Option<&str>,
+    file: Option<&str>,
+    line: Option<u32>,
+    thread: Option<&str>,
+    mdc: &[(String, String)],
+) -> String {
+    let entries: Vec<String> = mdc.iter().map(|(k, v)| format!("{};{}", enc_str(k), enc_str(v))).collect();
+    format!(
+        "{}\t{}\t{}\t{}\t{}\t{}\t{}\t{}",
+        level,
+        enc_str(msg),
+        enc_str(target),
+        enc_opt(mp, enc_str),
+        enc_opt(file, enc_str),
+        enc_opt(line, |n| n.to_string()),
+        enc_opt(thread, enc_str),
+        enc_list(",", &entries)
+    )
+}
+
+pub fn gen(rng: &mut Rng, n: usize, thorough: bool, emit: &mut dyn FnMut(String)) {
+    // ---- deterministic block -------------------------------------------------------------------
+    // every control character, DEL, quote, backslash, LS/PS, an astral character: alone in each text position
+    let mut singles: Vec<char> = (0u32..0x20).map(|c| char::from_u32(c).unwrap()).collect();
+    singles.extend(['"', '\\', '\u{7f}', '\u{2028}', '\u{2029}', '\u{1f600}', '/']);
+    let all: String = singles.iter().collect();
+    let mut probes: Vec<String> = singles.iter().map(|c| format!("a{}b", c)).collect();
+    probes.push(all.clone());
+    probes.push(all.chars().rev().collect());
+    for p in probes.iter() {
+        let p_thread = p.replace('\u{0}', "\u{1}");
+        emit(case_line(3, p, "t", Some("m"), Some("f"), Some(1), Some("th"), &[]));
+        emit(case_line(3, "msg", p, Some("m"), Some("f"), Some(1), None, &[]));
+        emit(case_line(3, "msg", "t", Some(p), None, None, None, &[]));
+        emit(case_line(3, "msg", "t", None, Some(p), None, None, &[]));
+        emit(case_line(3, "msg", "t", None, None, None, Some(&p_thread), &[]));
+        emit(case_line(3, "msg", "t", None, None, None, None, &[(p.clone(), "v".to_owned())]));
+        emit(case_line(3, "msg", "t", None, None, None, None, &[("k".to_owned(), p.clone())]));
+    }
+    // every level × every presence pattern × named/unnamed thread
+    for level in 1..=5usize {
+        for mask in 0..8u32 {
+            for named in [false, true] {
+                emit(case_line(
+                    level,
+                    "m\"\\\n",
+                    "a::b",
+                    if mask & 1 != 0 { Some("mod::path") } else { None },
+                    if mask & 2 != 0 { Some("src/lib.rs") } else { None },
+                    if mask & 4 != 0 { Some(42) } else { None },
+                    if named { Some("worker-1") } else { None },
+                    &[("k".to_owned(), "v".to_owned())],
+                ));
+            }
+        }
+    }
+    // line number boundaries; values that look like placeholders
+    for l in [0u32, 1, 9, 10, 99, 100, 4294967295, 2147483648, 1000000007] {
+        emit(case_line(1, "x", "t", None, None, Some(l), None, &[]));
+    }
+    for s in ["", "null", "None", "<unknown>", "0"] {
+        emit(case_line(2, s, s, Some(s), Some(s), Some(0), Some(if s.is_empty() { "x" } else { s }), &[(s.to_owned(), s.to_owned())]));
+    }
+    emit(case_line(2, "", "", Some(""), Some(""), None, Some(""), &[("".to_owned(), "".to_owned())]));
+    for t in TRICKY {
+        let tn = t.replace('\u{0}', "\u{1}");
+        emit(case_line(4, t, t, Some(t), Some(t), Some(7), Some(&tn), &[(t.to_string(), t.to_string()), ("k".to_owned(), t.to_string())]));
+    }
+    // MDC: overwriting insertions, many keys (hash order), keys that collide with the struct's keys
+    emit(case_line(5, "x", "t", None, None, None, None, &[("k".into(), "1".into()), ("k".into(), "2".into())]));
+    emit(case_line(
+        5,
+        "x",
+        "t",
+        None,
+        None,
+        None,
+        None,
+        &["time", "level", "message", "module_path", "file", "line", "target", "thread", "thread_id", "mdc"]
+            .iter()
+            .map(|k| (k.to_string(), "shadow".to_string()))
+            .collect::<Vec<_>>(),
+    ));
+    let many: Vec<(String, String)> = (0..if thorough { 200 } else { 40 }).map(|i| (format!("key{}", i), format!("v\n{}", i))).collect();
+    emit(case_line(5, "x", "t", None, None, None, None, &many));
+
+    // ---- random stream -------------------------------------------------------------------------
+    for _ in 0..n {
+        let level = rng.range(1, 5) as usize;
+        let msg = rand_string(rng, thorough, false);
+        let target = rand_string(rng, thorough, false);
+        let mp = if rng.chance(1, 2) { Some(rand_string(rng, thorough, false)) } else { None };
+        let file = if rng.chance(1, 2) { Some(rand_string(rng, thorough, false)) } else { None };
+        let line = if rng.chance(1, 2) {
+            Some(match rng.below(4) {
+                0 => rng.below(10) as u32,
+                1 => rng.below(100000) as u32,
+                2 => u32::MAX - rng.below(3) as u32,
+                _ => rng.next() as u32,
+            })
+        } else {
+            None
+        };
+        let thread = if rng.chance(1, 2) { Some(rand_string(rng, thorough, true)) } else { None };
+        let nm = match rng.below(6) {
+            0 | 1 => 0,
+            2 => 1,
+            3 => 2,
+            _ => rng.range(0, if thorough { 12 } else { 5 }),
+        };
+        let mut mdc: Vec<(String, String)> = (0..nm).map(|_| (rand_string(rng, thorough, false), rand_string(rng, thorough, false))).collect();
+        if nm > 0 && rng.chance(1, 6) {
+            // overwrite an existing key
+            let k = mdc[rng.below(nm) as usize].0.clone();
+            mdc.push((k, rand_string(rng, thorough, false)));
+        }
+        emit(case_line(level, &msg, &target, mp.as_deref(), file.as_deref(), line, thread.as_deref(), &mdc));
+    }
+}
+
+struct Case {
+    level: Level,
+    msg: String,
+    target: String,
+    mp: Option<String>,
+    file: Option<String>,
+    line: Option<u32>,
+    thread: Option<String>,
+    mdc: Vec<(String, String)>,
+}
+
+fn dec_opt_str(s: &str) -> Option<Option<String>> {
+    if s == "-" {
+        Some(None)
+    } else {
+        dec_str(s).map(Some)
+    }
+}
+
+fn decode(fields: &[&str]) -> Option<Case> {
+    if fields.len() != 8 {
+        return None;
+    }
+    let lv: usize = fields[0].parse().ok()?;
+    if !(1..=5).contains(&lv) {
+        return None;
+    }
+    let line = if fields[5] == "-" { None } else { Some(fields[5].parse::<u32>().ok()?) };
+    let mut mdc = vec![];
+    for e in dec_list(',', fields[7]) {
+        let kv: Vec<&str> = e.split(';').collect();
+        if kv.len() != 2 {
+            return None;
+        }
+        mdc.push((dec_str(kv[0])?, dec_str(kv[1])?));
+    }
+    let thread = dec_opt_str(fields[6])?;
+    if let Some(t) = &thread {
+        if t.contains('\u{0}') {
+            return None; // std refuses thread names with interior NUL
+        }
+    }
+    Some(Case {
+        level: LEVELS[lv - 1],
+        msg: dec_str(fields[1])?,
+        target: dec_str(fields[2])?,
+        mp: dec_opt_str(fields[3])?,
+        file: dec_opt_str(fields[4])?,
+        line,
+        thread,
+        mdc,
+    })
+}
+
+struct Run {
+    out: Result<Result<Vec<u8>, String>, String>,
+    tid: usize,
+    order: Vec<String>,
+}
+
+fn run_on_thread(c: &Case) -> Run {
+    let (level, msg, target, mp, file, line, mdc) =
+        (c.level, c.msg.clone(), c.target.clone(), c.mp.clone(), c.file.clone(), c.line, c.mdc.clone());
+    let body = move || {
+        log_mdc::clear();
+        for (k, v) in mdc.iter() {
+            log_mdc::insert(k.clone(), v.clone());
+        }
+        let mut order = vec![];
+        log_mdc::iter(|k, _| order.push(k.to_owned()));
+        let tid = thread_id::get();
+        let out = guarded(move || {
+            let mut buf: Vec<u8> = vec![];
+            let r = JsonEncoder::new().encode(
+                &mut SimpleWriter(&mut buf),
+                &log::Record::builder()
+                    .level(level)
+                    .target(&target)
+                    .module_path(mp.as_deref())
+                    .file(file.as_deref())
+                    .line(line)
+                    .args(format_args!("{}", msg))
+                    .build(),
+            );
+            r.map(|()| buf).map_err(|e| e.to_string())
+        });
+        log_mdc::clear();
+        Run { out, tid, order }
+    };
+    let builder = match &c.thread {
+        Some(name) => std::thread::Builder::new().name(name.clone()),
+        None => std::thread::Builder::new(),
+    };
+    builder.spawn(body).expect("spawn").join().expect("join")
+}
+
+fn independent(c: &Case, bytes: &[u8], tid: usize) -> String {
+    use serde_json::Value;
+    let v: Value = match serde_json::from_slice(bytes) {
+        Ok(v) => v,
+        Err(_) => return "FAIL-parse".to_owned(),
+    };
+    let o = match v.as_object() {
+        Some(o) => o,
+        None => return "FAIL-not-object".to_owned(),
+    };
+    let mut map = std::collections::BTreeMap::new();
+    for (k, v) in c.mdc.iter() {
+        map.insert(k.clone(), v.clone());
+    }
+    let level = match c.level {
+        Level::Error => "ERROR",
+        Level::Warn => "WARN",
+        Level::Info => "INFO",
+        Level::Debug => "DEBUG",
+        Level::Trace => "TRACE",
+    };
+    let opt_str = |k: &str, want: &Option<String>| match (o.get(k), want) {
+        (None, None) => true,
+        (Some(Value::String(s)), Some(w)) => s == w,
+        _ => false,
+    };
+    if o.get("message").and_then(|x| x.as_str()) != Some(&c.msg) {
+        return "FAIL-message".to_owned();
+    }
+    if o.get("level").and_then(|x| x.as_str()) != Some(level) {
+        return "FAIL-level".to_owned();
+    }
+    if o.get("target").and_then(|x| x.as_str()) != Some(&c.target) {
+        return "FAIL-target".to_owned();
+    }
+    if !opt_str("module_path", &c.mp) {
+        return "FAIL-module_path".to_owned();
+    }
+    if !opt_str("file", &c.file) {
+        return "FAIL-file".to_owned();
+    }
+    match (o.get("line"), c.line) {
+        (None, None) => {}
+        (Some(Value::Number(n)), Some(w)) if n.as_u64() == Some(w as u64) => {}
+        _ => return "FAIL-line".to_owned(),
+    }
+    match (o.get("thread"), &c.thread) {
+        (Some(Value::Null), None) => {}
+        (Some(Value::String(s)), Some(w)) if s == w => {}
+        _ => return "FAIL-thread".to_owned(),
+    }
+    if o.get("thread_id").and_then(|x| x.as_u64()) != Some(tid as u64) {
+        return "FAIL-thread_id".to_owned();
+    }
+    if o.get("time").and_then(|x| x.as_str()).is_none() {
+        return "FAIL-time".to_owned();
+    }
+    match o.get("mdc").and_then(|x| x.as_object()) {
+        Some(m) => {
+            if m.len() != map.len() || !map.iter().all(|(k, v)| m.get(k).and_then(|x| x.as_str()) == Some(v)) {
+                return "FAIL-mdc".to_owned();
+            }
+        }
+        None => return "FAIL-mdc".to_owned(),
+    }
+    let expected_keys = 7 + c.mp.is_some() as usize + c.file.is_some() as usize + c.line.is_some() as usize;
+    if o.len() != expected_keys {
+        return "FAIL-keys".to_owned();
+    }
+    if bytes.iter().filter(|b| **b == b'\n').count() != 1 || bytes.last() != Some(&b'\n') {
+        return "FAIL-newline".to_owned();
+    }
+    "ok".to_owned()
+}
+
+pub fn exec(fields: &[&str]) -> String {
+    let c = match decode(fields) {
+        Some(c) => c,
+        None => return "bad-case".to_owned(),
+    };
+    let run = run_on_thread(&c);
+    let bytes = match run.out {
+        Err(_) => return "PANIC".to_owned(),
+        Ok(Err(e)) => return format!("ERR:{}", e.replace(|ch: char| ch.is_whitespace(), "_")),
+        Ok(Ok(b)) => b,
+    };
+    let text = match String::from_utf8(bytes.clone()) {
+        Ok(t) => t,
+        Err(_) => return format!("NONUTF8:{}", enc_bytes(&bytes)),
+    };
+    // the time value: the first member; RFC 3339 text contains no quote
+    let time = text
+        .strip_prefix("{\"time\":\"")
+        .and_then(|rest| rest.find('"').map(|i| rest[..i].to_owned()))
+        .unwrap_or_default();
+    let order: Vec<String> = run.order.iter().map(|k| enc_str(k)).collect();
+    format!(
+        "time={} tid={} order={} indep={} line={}",
+        enc_str(&time),
+        run.tid,
+        enc_list(",", &order),
+        independent(&c, &bytes, run.tid),
+        enc_str(&text)
+    )
+}
+
+/// child-process entry point (unused by this property)
 pub fn child(_args: &[String]) -> i32 {
     2
 }
